@@ -76,5 +76,5 @@ add("C35", "model_checking", "stateless deviation-bounded DFS over interleavings
     "real SyncWAL loop + fixed writer + variable writer + Shutdown thread (+ checkpoint timer with rotation); ALL schedules with <=2 deviations (thorough 3); when Shutdown returns the query results and the device image are captured atomically, the image is restarted through the real startup path and the results compared",
     SC + "; the process exits when Shutdown returns", "schedmc")
 add("C05", "model_checking", "stateless deviation-bounded DFS over interleavings of the SyncWAL loop's events x exhaustive crash-prefix enumeration of every distinct device log, plus a WAL protocol model as trace acceptor with rule-directed power-loss witnesses",
-    "real SyncWAL loop + writer with two writes to one interval + variable writer + WAL/checkpoint timers (rotation every / every 2nd checkpoint) + optional Shutdown; ALL schedules with <=1 deviation (thorough 2); every distinct device log is crashed at every prefix and restarted through the real startup path; every log is run through the protocol model (R2/R4/R5), a broken rule triggers the power-loss witness for that rule and the end-to-end oracle decides (rules are hints, never verdicts)",
+    "real SyncWAL loop + writer with two writes to one interval + variable writer + WAL/checkpoint timers (rotation every / every 2nd checkpoint) + optional Shutdown; ALL schedules with <=2 deviations (thorough 3); every distinct device log is crashed at every prefix and restarted through the real startup path; every log is run through the protocol model (R2/R4/R5), a broken rule triggers the power-loss witness for that rule and the end-to-end oracle decides (rules are hints, never verdicts)",
     SC + "; WAL protocol model in checks/c05.go (conformance: every implementation trace is accepted or produces an executed witness)", "schedmc")
